@@ -143,8 +143,14 @@ Proof.
         assert (a_tie b <> a_tie a) by (apply Hn; now left). lia.
 Qed.
 
-Lemma ties_heap_insert : forall a l, map a_tie (heap_insert a l) = map a_tie (heap_insert a l).
-Proof. reflexivity. Qed.
+Lemma nodup_snoc : forall (l : list Z) x, NoDup l -> ~ In x l -> NoDup (l ++ [x]).
+Proof.
+  induction l as [|a r IH]; cbn; intros x ND Hn.
+  - constructor; [tauto|constructor].
+  - inversion ND; subst. constructor.
+    + rewrite in_app_iff. cbn. intuition.
+    + apply IH; auto.
+Qed.
 
 Lemma nodup_ties_insert : forall a l, NoDup (map a_tie l) -> (forall b, In b l -> a_tie b <> a_tie a) ->
   NoDup (map a_tie (heap_insert a l)).
